@@ -158,6 +158,31 @@ class Dist(StandIn):
     def norm2(self):
         return self.d * self.d
 
+    # the stand-in is the vector (d, 0): every way of measuring it gives the same distance d
+    def inner(self, o):
+        return self.d * o.d
+
+    __or__ = __matmul__ = inner
+
+    def __mul__(self, o):
+        return self.inner(o) if isinstance(o, Dist) else Dist(self.d * o)
+
+    __rmul__ = __mul__
+
+    def __getitem__(self, i):
+        return (self.d, Fr(0))[i]
+
+    def __iter__(self):
+        return iter((self.d, Fr(0)))
+
+    @property
+    def x(self):
+        return self.d
+
+    @property
+    def y(self):
+        return Fr(0)
+
 
 def r18_5(ctx):
     out = Outcome("R18.5", "`point in segment`: False outside the bounding box; otherwise True iff one of the projected "
@@ -167,6 +192,7 @@ def r18_5(ctx):
     tol = Fr(1, 10**6)
     cases = [("outside the box", False, [Fr(0)], False), ("in the box, on the curve", True, [Fr(3), Fr(0)], True),
              ("in the box, within tolerance", True, [tol / 2], True), ("in the box, farther than the tolerance", True, [tol * 3, Fr(1)], False),
+             ("in the box, a hundred tolerances away", True, [tol * 100], False),
              ("in the box, no projection", True, [], False)]
     for label, inbox, dists, want in cases:
         class Bx(StandIn):
